@@ -1,0 +1,34 @@
+//go:build verif
+// +build verif
+
+package types
+
+import "github.com/lyraproj/pcore/utils"
+
+// VerifToken is a lexer token as seen by the verification harness: the token kind (the tokenType
+// constant), the unescaped token text and the reader's line and column right after the token.
+type VerifToken struct {
+	Kind   int
+	Text   string
+	Line   int
+	Column int
+}
+
+// VerifTokens runs the unexported lexer over s and returns the tokens up to and including the end
+// token. A panic raised by the lexer is returned as failure together with the tokens read so far and
+// the reader's line and column at the time of the failure.
+func VerifTokens(s string) (tokens []VerifToken, failure interface{}, line, column int) {
+	sr := utils.NewStringReader(s)
+	defer func() {
+		failure = recover()
+		line = sr.Line()
+		column = sr.Column()
+	}()
+	for {
+		t := nextToken(sr)
+		tokens = append(tokens, VerifToken{int(t.i), t.s, sr.Line(), sr.Column()})
+		if t.i == end {
+			return
+		}
+	}
+}
